@@ -175,9 +175,17 @@ def _walk(args):
     while stack:
         src, bec, hist, label, dst = stack.pop()
         b2 = copy.deepcopy(bec)
+        # every third step: a second file built from the SAME list object and an equal comment dictionary (the clone idiom
+        # Bf3File(dict(f.comments), f.components)); editing the one must leave the other as it was
+        twin = before = None
+        if steps % 3 == 0:
+            twin = Bec2File(Bf3File(dict(b2.bf3file.comments), b2.bf3file.components), list(b2.auth_blocks.values()), b2.session_key)
+            before = project(twin, g)
         try:
             apply_op(b2, label, graph.nodes[src]["nfw"], g)
             got = project(b2, g)
+            if twin is not None and project(twin, g) != before:
+                got = {"exception": {"cls": "ObservationMismatch", "mro": [], "msg": "a second file built from the same component list changed: %r -> %r" % (before, project(twin, g))}}
         except Exception as e:               # noqa: BLE001
             got = {"exception": L.exc_info(e)}
         steps += 1
